@@ -221,11 +221,27 @@ func (x *Exec) contractCall(fr *Frame, st *State, site ssa.Instruction, callee *
 		}
 	}
 	pnames, ptypes := sigParams(callee)
+	var interior []*Addr
+	interiorNames := map[string]bool{}
+	defer func() {
+		if len(interior) > 0 && !ct.ModNothing && !ct.Pure {
+			for _, ia := range interior {
+				nv := x.declare("iarg", x.S.SortOf(ia.T))
+				x.assume(x.typeInv(nv, ia.T, 0))
+				x.storeAddr(st, ia, nv)
+			}
+		}
+	}()
 	for i := range pnames {
 		if i < len(args) {
 			a := args[i]
 			if a.Addr != nil {
-				panic(toolErr("interior address passed to contracted callee " + short))
+				// &s[i] / &o.f handed to a contracted callee: the callee sees an opaque
+				// reference; unless it modifies nothing, whatever it points at is unknown
+				// afterwards
+				interior = append(interior, a.Addr)
+				interiorNames[pnames[i]] = true
+				a = Val{T: x.materialize(st, a, ptypes[i]), Typ: ptypes[i]}
 			}
 			a.Typ = ptypes[i]
 			if a.T.S == "" {
@@ -269,6 +285,9 @@ func (x *Exec) contractCall(fr *Frame, st *State, site ssa.Instruction, callee *
 		x.havocAll(st)
 	} else if !ct.ModNothing {
 		for _, mt := range ct.Modifies {
+			if interiorNames[rootIdent(mt.E)] {
+				continue // the real cells are the element/field the pointer came from; havoced below
+			}
 			x.havocTarget(cenv.inState(pre), st, mt)
 		}
 	}
